@@ -18,6 +18,12 @@ func StringToBytes32(str string) ([32]byte, error) {
 		return [32]byte{}, fmt.Errorf("string is too long")
 	}
 
+	// the value is left-padded with zero bytes, so a leading zero byte in the string itself
+	// would make two different strings encode to the same bytes32
+	if len(str) > 0 && str[0] == 0 {
+		return [32]byte{}, fmt.Errorf("string must not start with a zero byte")
+	}
+
 	var byteArray [32]byte
 	copy(byteArray[32-len(str):], str)
 	return byteArray, nil
